@@ -90,3 +90,53 @@ func c05RequiredProvidedEmpty(r *Run) {
 		}
 	}
 }
+
+// c05NullFrontMatter: "the component's own front-matter overrides them" also when the front-matter value is null (`sub:`, `sub: ~`,
+// `sub: null`): inside the component the name is bound to nothing - it shows neither the prop of the same name nor the includer's variable -
+// and after the include the includer's own value is back.
+func c05NullFrontMatter(r *Run) {
+	for _, spelled := range []string{"sub:", "sub: ~", "sub: null", "sub: \"\""} {
+		for _, how := range []string{"static-prop", "bound-prop", "interp-prop", "includer-var", "loop-var", "none"} {
+			for _, tag := range []bool{false, true} {
+				attrs, page := "", ""
+				data := map[string]any{"src": "FROM-PROP", "items": []any{"i1", "i2"}}
+				switch how {
+				case "static-prop":
+					attrs = `sub="FROM-PROP"`
+				case "bound-prop":
+					attrs = `:sub="src"`
+				case "interp-prop":
+					attrs = `sub="{{ src }}"`
+				case "includer-var":
+					data["sub"] = "FROM-PAGE"
+				}
+				use := `<template include="components/MyComp.vuego" ` + attrs + `></template>`
+				if tag {
+					use = `<my-comp ` + attrs + `></my-comp>`
+				}
+				page = `<b>«before»</b>` + use + `<b>«after:{{ sub }}»</b>`
+				wantAfter := map[string]string{"includer-var": "FROM-PAGE"}[how]
+				n := 1
+				if how == "loop-var" {
+					page = `<b>«before»</b><div v-for="sub in items">` + use + `<u>«row:{{ sub }}»</u></div><b>«after:{{ sub }}»</b>`
+					n = 2
+				}
+				files := map[string]string{"p.vuego": page, "components/MyComp.vuego": "---\n" + spelled + "\ntitle: T\n---\n<i>«c:{{ title }}|{{ sub }}|»</i>"}
+				res := renderPage(files, "p.vuego", data, vuego.WithComponents())
+				name := fmt.Sprintf("null-front-matter %q vs %s tag=%v", spelled, how, tag)
+				c := &Case{Name: name, Key: name, Input: map[string]any{"stream": "null-front-matter", "files": files}, Impl: res.canon(), Oracle: &Verdict{OK: true},
+					Tags: []string{"stream:null-front-matter", "how:" + how}}
+				switch {
+				case res.Err != "" || res.Panic != "" || res.Timeout:
+					c.Oracle = &Verdict{OK: false, Class: "component-crash:null-front-matter", Detail: fmt.Sprintf("%+v", res)}
+				case strings.Count(res.Out, "«c:T||»") != n:
+					c.Oracle = &Verdict{OK: false, Class: "front-matter-null-does-not-override:" + how, Detail: fmt.Sprintf("front-matter %q, %s: the component shows %q", spelled, how, res.Out)}
+				case !strings.Contains(res.Out, "«after:"+wantAfter+"»") || (how == "loop-var" && !strings.Contains(res.Out, "«row:i2»")):
+					c.Oracle = &Verdict{OK: false, Class: "front-matter-leaks:null", Detail: res.Out}
+				}
+				r.Add(c)
+				pendingPages = append(pendingPages, pageCase("component", files, map[string]string{"my-comp": "components/MyComp.vuego"}, "p.vuego", data, "null-front-matter"))
+			}
+		}
+	}
+}
